@@ -54,7 +54,8 @@ def model_fixed(nsec, layer=1, prefix=b""):
 
 
 def build_dynamic(states, slots, spb, size=None, max_entries=None, layout="std", footer_len=512, layer=1, nslots=None,
-                  base_sector=None):
+                  base_sector=None, hdr_at=None):
+    """hdr_at: byte offset of the dynamic header behind all blocks (the footer's data_offset then points far into the file)."""
     n = len(states)
     bs = spb * 512
     if size is None:
@@ -91,7 +92,9 @@ def build_dynamic(states, slots, spb, size=None, max_entries=None, layout="std",
     img.put(0, footer(size, 3, hdr_off))
     dyn = struct.pack(DYN, b"cxsparse", FIXED_OFF, bat_off, 0x00010000, max_entries, bs, 0, b"", 0, 0, b"").ljust(1024, b"\0")
     dyn = dyn[:36] + struct.pack(">I", _checksum(dyn, 36)) + dyn[40:]
-    img.put(hdr_off, dyn)
+    old_hdr_off = hdr_off
+    if hdr_at is None:
+        img.put(hdr_off, dyn)
     img.put(bat_off, struct.pack(f">{max_entries}I", *ents).ljust(bat_len, b"\xff"))
     inv = {p: i for i, (st, p) in enumerate(zip(states, slots)) if st == DATA}
     end = 0
@@ -104,6 +107,13 @@ def build_dynamic(states, slots, spb, size=None, max_entries=None, layout="std",
             img.put_pattern(off, stride * 512, pattern.SLACK, off)
         end = off + stride * 512
     end = max(end, bat_off + bat_len if layout == "bat_after_data" else 0)
+    if hdr_at is not None:
+        assert hdr_at >= end or (bat_off + bat_len <= hdr_at and hdr_at + 1024 <= first * 512), "header overlaps"
+        hdr_off = hdr_at
+        img.ext = [e for e in img.ext if e[0] != 0]
+        img.put(0, footer(size, 3, hdr_off))
+        img.put(hdr_off, dyn)
+        end = max(end, hdr_off + 1024 + (-(hdr_off + 1024)) % 512)
     img.put(end, footer(size, 3, hdr_off, footer_len))
     for name, off, w in (("cookie", 0, 8), ("features", 8, 4), ("version", 12, 4), ("data_offset", 16, 8),
                          ("original_size", 40, 8), ("current_size", 48, 8), ("disk_type", 60, 4), ("checksum", 64, 4)):
